@@ -271,8 +271,8 @@ func chunkStr(reads []int) string {
 
 const bufModelMax = 4300
 
-// bufKey is the request for the buffer-level model (Json/BufModel.lean, op `runbuf`) of a parser
-// variant: the same arguments as the byte-level `run`, the chunk lengths being the actual read sizes.
+// bufKey is the request for the buffer-level model of a variant (Json/BufModel.lean, op `runbuf`, for the
+// parsers; Json/BufModelV.lean, ops `runbufv` / `runbuft`, for the validator and the tokenizer): the same arguments as the byte-level `run`, the chunk lengths being the actual read sizes.
 func bufKey(v *Variant, mode, reads string, n, idx int) string {
 	// by Json.runB_eq_run the answer equals the byte-level model's, so short inputs are sampled (one in
 	// three; every input of 24 bytes or more and every corpus input is asked), multi mode one in six
@@ -289,10 +289,23 @@ func bufKey(v *Variant, mode, reads string, n, idx int) string {
 	}
 	// the buffer-level model indexes a list (`buf[off]?`, `buf.drop (off+1)`): quadratic in the buffer
 	// length, so it is asked for inputs up to bufModelMax bytes (the 4096-straddling families included)
-	if !strings.Contains(v.Opts(), "f") || n > bufModelMax {
+	op := "runbuf" // oj.Parser, gen.Parser
+	switch {
+	case strings.HasPrefix(v.Name, "oj.Validate"):
+		op = "runbufv"
+	case strings.HasPrefix(v.Name, "oj.Tokenizer"):
+		op = "runbuft"
+	case !strings.Contains(v.Opts(), "f"):
 		return ""
 	}
-	return "runbuf\t" + v.Table + "\t" + mode + "\t" + v.Opts() + "\t" + reads
+	if n > bufModelMax {
+		return ""
+	}
+	opts := v.Opts()
+	if opts == "" {
+		opts = "-"
+	}
+	return op + "\t" + v.Table + "\t" + mode + "\t" + opts + "\t" + reads
 }
 
 func runAll(in []byte, idx int) []ran {
